@@ -41,8 +41,8 @@ CHECKS = {
         "level": "exploration",
         "phases": [
             plain("sizes", "TestSizes",
-                  {"shards": 7, "timeout": 600},
-                  {"shards": 12, "timeout": 3000}),
+                  {"shards": 9, "timeout": 600},
+                  {"shards": 16, "timeout": 3000}),
         ],
     },
     "C19": {
